@@ -525,6 +525,9 @@ def get_spike_waveforms(spike_ids, channel_ids, spike_waveforms=None, n_samples_
 
     """
     assert spike_waveforms
+    # NOTE: signed integer channel ids (with uint64 ids, the set operations with the table of
+    # stored channels would return floating point values, which cannot be used as indices).
+    channel_ids = np.asarray(channel_ids, dtype=np.int64)
     # Make sure the requested spikes all belong to the spike_waveforms object.
     assert np.all(np.isin(spike_ids, spike_waveforms.spike_ids))
     spike_ids_rel = _index_of(spike_ids, spike_waveforms.spike_ids)
